@@ -227,6 +227,14 @@ def gen_minimal():
                         'args': []}}
 
 
+def gen_layer_helper():
+    """the layer's own testSetUp starts a helper thread before the k-th test: it exists when that test starts"""
+    for k in (0, 1, 2):
+        for kinds in (('pass', 'pass', 'pass'), ('pass', 'fail', 'pass')):
+            yield {'spec': {'layers': [{'name': 'LH', 'helper_before': k}],
+                            'tests': [{'k': kd, 'layer': 'LH'} for kd in kinds], 'args': []}}
+
+
 def gen_singles():
     for atom in ATOMS:
         for pats in PATTERN_SETS:
@@ -316,6 +324,7 @@ def nontrivial(case):
 def run(budget_s, seed, tier):
     phases = [
         ('leak, then release + leak in the next test: 3x3 kinds', True, gen_minimal()),
+        ('layer hook starts a helper thread before the k-th test: 3 positions x 2 outcome rows', True, gen_layer_helper()),
         ('one thread: 10 atoms (api x name kind x blocked/joined) x 4 pattern sets x 3 outcomes',
          True, gen_singles()),
         ('two tests: 10x10 atoms x release-before-start / not x 2 pattern sets', True, gen_two()),
